@@ -243,7 +243,7 @@ func c18Case(sp *specs.Spec, class string, scratch string, n int, nontrivial boo
 		verdicts[obsNames18[i]] = verdictNames17[o]
 	}
 	return hx.Case{
-		Term:       hx.C("C18", specTerm(sp), imgTerm, hx.L(items)),
+		Term:       chunkLiterals(hx.C("C18", specTerm(sp), imgTerm, hx.L(items))),
 		Desc:       map[string]interface{}{"spec": specJSON(sp), "verdicts": verdicts},
 		Class:      class,
 		Nontrivial: nontrivial,
@@ -315,6 +315,35 @@ func genC18(r *hx.R, tier string, scratch string) (*hx.Suite, error) {
 		sp = fullSpec17()
 		sp.Devices[0].ContainerEdits.DeviceNodes[0].Path = ""
 		add(sp, "library-rejects", true)
+	}
+	// annotation sets that are each within the 256 KiB limit while the Spec's and the devices' together are far beyond it
+	// (the limit holds per set), one set exactly at the limit, and one byte over it (the library rejects)
+	{
+		nbig := 0
+		big := func(n int) map[string]string {
+			// a key of its own for most sets, the same key for some
+			nbig++
+			k := fmt.Sprintf("k%d", nbig/2)
+			return map[string]string{k: strings.Repeat("v", n-len(k))}
+		}
+		sp := fullSpec17()
+		sp.Annotations = big(100 << 10)
+		for len(sp.Devices) < 3 {
+			sp.Devices = append(sp.Devices, specs.Device{Name: fmt.Sprintf("more%d", len(sp.Devices)), ContainerEdits: specs.ContainerEdits{Env: []string{"A=b"}}})
+		}
+		for i := range sp.Devices {
+			sp.Devices[i].Annotations = big(90 << 10)
+		}
+		add(sp, "annotation-sets-large-together", true)
+		sp = fullSpec17()
+		sp.Annotations = big(1 << 10)
+		sp.Devices[len(sp.Devices)-1].Annotations = big(256 << 10)
+		add(sp, "annotation-sets-large-together", true)
+		if tier == "thorough" {
+			sp = fullSpec17()
+			sp.Devices[0].Annotations = big(256<<10 + 1)
+			add(sp, "library-rejects", true)
+		}
 	}
 	count := 900
 	if tier == "thorough" {
